@@ -1,2 +1,61 @@
-(* C09 — property theorems (under construction; see Batch/*_proofs.v). *)
-From QV Require Import Batch.Monitor.
+(* C09 — a failed primitive job reaches exactly the callers of its batch; the wrapper stays usable.
+   Repaired variant = HEAD (after fix b099965); `choice = 1` at f-end makes an invocation fail.  Property theorems only. *)
+From QV Require Import Common.Base Batch.Monitor Batch.ListX Batch.Inv Batch.Route Batch.Route_proofs Batch.Live Batch.Live_proofs.
+
+(* before the fix: one thread, first invocation fails -> its next call can never start (entry lock owned by itself) *)
+Theorem C09_legacy_refuted :
+  exists st, run legacy_failure (init_state c09_calls1) c09_sched1 = Some st
+    /\ (forall t c, step legacy_failure st t c = None)
+    /\ (exists th0, threads st = [th0] /\ t_pc th0 = E0 /\ t_outs th0 = [([1], RetExc 0 0)] /\ t_pubs th0 = [2]
+        /\ lkE (sh st) = Some 0 /\ bpubs (sh st) = [1] /\ exc (sh st) = Some 0).
+Proof. exact c09_legacy_witness1. Qed.
+Print Assumptions C09_legacy_refuted.
+
+(* before the fix: a member that had not started waiting when the failing executor notified hangs; so does a newcomer *)
+Theorem C09_legacy_refuted_member :
+  exists st, run legacy_failure (init_state c09_calls3) c09_sched3 = Some st
+    /\ (forall t c, step legacy_failure st t c = None)
+    /\ (exists th0 th1 th2, threads st = [th0; th1; th2] /\ t_pc th0 = N4 /\ wqI (sh st) = [0] /\ t_pc th1 = Done
+        /\ t_outs th1 = [([2], RetExc 0 1)] /\ t_pc th2 = E0 /\ lkE (sh st) = Some 1).
+Proof. exact c09_legacy_witness3. Qed.
+Print Assumptions C09_legacy_refuted_member.
+
+(* Every call that came back belongs to exactly one invocation k (its pubs occupy the slot idx of k's argument) and
+   came back with k's result if k succeeded and with k's exception if k failed: a failure reaches every member of its
+   batch that returns, nobody outside the batch, and nobody gets a result of a failed batch. *)
+Theorem C09_failure_delivered : forall v st pubs o,
+  failure_path_repaired v = true -> reachable v st -> returned st pubs o ->
+  exists k idx arg ok, nth_error (log (sh st)) k = Some (arg, ok) /\ slice_at arg idx pubs
+                       /\ o = (if ok then RetOk k idx else RetExc k idx).
+Proof. exact failure_delivered. Qed.
+Print Assumptions C09_failure_delivered.
+
+(* Whenever no batch is open, the shared fields have their initial values and the variable lock is free, however many
+   earlier invocations failed; so C06/C07/C08 apply to the continuation unchanged. *)
+Theorem C09_reset_after_failure : forall v st,
+  failure_path_repaired v = true -> reachable v st -> no_open_batch st ->
+  fields_initial (sh st) /\ lkV (sh st) = None.
+Proof. exact reset_when_no_batch. Qed.
+Print Assumptions C09_reset_after_failure.
+
+Theorem C09_quiescent_initial : forall v st,
+  failure_path_repaired v = true -> reachable v st -> quiescent st ->
+  fields_initial (sh st) /\ lkE (sh st) = None /\ lkV (sh st) = None /\ lkI (sh st) = None /\ lkX (sh st) = None
+  /\ wqI (sh st) = [] /\ wqX (sh st) = [].
+Proof. exact quiescent_initial. Qed.
+Print Assumptions C09_quiescent_initial.
+
+(* nobody hangs after a failure: C08's theorem does not depend on which invocations fail *)
+Theorem C09_no_stuck_after_failure : forall v st,
+  ext_wait_timed v = true -> failure_path_repaired v = true -> reachable v st ->
+  some_unfinished st -> can_step v st.
+Proof. exact no_stuck. Qed.
+Print Assumptions C09_no_stuck_after_failure.
+
+(* HEAD's variant, one thread, two calls, first invocation fails: Err then Ok, quiescent *)
+Example C09_nonvacuous :
+  exists st, run (head false) (init_state c09_calls1) c09_head_sched = Some st /\ all_done st = true
+    /\ map t_outs (threads st) = [[([1], RetExc 0 0); ([2], RetOk 1 0)]]
+    /\ log (sh st) = [([1], false); ([2], true)].
+Proof. exact c09_head_run. Qed.
+Print Assumptions C09_nonvacuous.
